@@ -789,6 +789,8 @@ def exploitFinish (s : St) : St :=
 
 /-- the part of `_exploit` after the entry trial -/
 def exploitBody (c : Cfg) (s : St) : St :=
+  -- `malicious_acls` empty (its default): nothing to add, the stage is complete (repair of F-C19-7; before it `[…][0]` raised)
+  if c.acls.isEmpty then progress { s with numAcls := 0, chosen := Act.nothing } else
   match c.acls[s.curAcl]? with
   | none => s.raise
   | some a =>
